@@ -102,8 +102,13 @@ class NetworksConfigConstructor:
         if network_name is None:
             network_name = "default"
         if network_name in self.networks:
-            nodes = self.networks[network_name].nodes
-            nodes.pop(node_name, None)
+            network = self.networks[network_name]
+            network.nodes.pop(node_name, None)
+            if network.topology is not None:
+                # The node should also disappear from the topology (its own entry and the neighbor lists)
+                network.topology.pop(node_name, None)
+                for name, neighbors in network.topology.items():
+                    network.topology[name] = [neigh for neigh in neighbors if not neigh == node_name]
 
     def reset(self):
         """
